@@ -675,10 +675,12 @@ def step (st : St) (toks : List String) : St × String :=
     let marker := ((kv rest "marker").bind unhexOrDash).getD []
     let zero : Addr := .v4 [0, 0, 0, 0] 0
     let out : Hs.Outcome :=
+      -- an empty marker: the application closes right after its last segment (end of stream inside the handshake)
       if kind == "socks5" then
         let split := ((kv rest "split").bind String.toNat?).getD segments.length
-        Hs.socks5Handshake (segments.take split).flatten (segments.drop split).flatten zero
-      else Hs.httpHandshake segments.flatten
+        if marker.isEmpty then Hs.socks5AtEof (segments.take split).flatten (segments.drop split).flatten zero
+        else Hs.socks5Handshake (segments.take split).flatten (segments.drop split).flatten zero
+      else if marker.isEmpty then Hs.httpAtEof segments.flatten else Hs.httpHandshake segments.flatten
     let all := segments.flatten
     (st, match out with
       | .tunnel a consumed reply => s!"ok {showAddr a} reply={hexOrDash reply} rest={hexOrDash (all.drop consumed ++ marker)}"
